@@ -17,8 +17,8 @@ ASSUMPTIONS = ["inputs are float32 tensors as the data pipeline produces them; r
                "image sides are multiples of the stride (H/stride unambiguous)",
                "animals beyond num_instances are NaN padding (as process_lf produces)"]
 SHARDS = {"quick": 4, "thorough": 16}
-N = {"quick": 900, "thorough": 600000}
-BUDGET = {"quick": 100, "thorough": 900}
+N = {"quick": 2700, "thorough": 3600000}
+BUDGET = {"quick": 100, "thorough": 600}
 TIMEOUT = {"quick": 600, "thorough": 2400}
 SELF_SHARDED = True
 VARIANTS = ["single", "single4d", "multi", "centroid", "dp_single", "dp_multi", "dp_centroid"]
